@@ -308,7 +308,7 @@ class PureEval:
 			empty = rng is False
 			if not empty and not isinstance(rng, bool):
 				sv = z3.Solver()
-				sv.set('timeout', 200)
+				sv.set('rlimit', 100000)
 				sv.add(rng)
 				empty = sv.check() == z3.unsat
 			if empty:
